@@ -13,6 +13,13 @@
   (with C13's operators), in abstract form for any symmetric cone (PSD), and the `Δs` equation
   of the exponential / power cones; the exact per-step update of `μ` and its decrease are
   proved for every symmetric cone (`mu_update_sum`, `mu_decrease`, `newton_step_orthogonality`).
+
+  Round 6: the starting point — `solve_initial_point` / `default_start` of the whole-solver model
+  (`solve_initial_point_calls_lp/_qp` [S], `solve_initial_point_lp/_qp` [F] least squares,
+  `default_start_ignores_flags` [S], `default_start_lp`, `identity_scaling_block`); one accepted pass
+  of the whole-solver model `Solver.pass` with second-order cones (`pass_is_newton_step`,
+  `pass_residual_contraction`, `pass_mu_update_partial`); the PSD combined step from the LAPACK
+  contracts alone (`psd_combined_step_from_contracts`).
 -/
 import ClarabelModel.Step
 import ClarabelModel.KktSystem
@@ -27,7 +34,9 @@ import ClarabelProofs.Lemmas.StepGenPow
 import ClarabelProofs.Lemmas.StepPsd
 import ClarabelProofs.Lemmas.StepQuadForm
 import ClarabelProofs.Lemmas.StepInitPoint
+import ClarabelProofs.Lemmas.StepInitPointExample
 import ClarabelProofs.Lemmas.StepPass
+import ClarabelProofs.Lemmas.StepPsdContracts
 import Mathlib.Tactic.NormNum
 import Mathlib.Tactic.Positivity
 
@@ -1426,6 +1435,447 @@ theorem pass_residual_contraction {st : Settings ℝ} {L L' : LoopSt ℝ} {n m :
   rw [ex, es, ez, eτ, eκ]
   exact h
 
+/-- [R] **The `μ` update of one accepted pass of the whole-solver model** (partial: the
+aggregated complementarity of the cones is a hypothesis).  Under the hypotheses of
+`pass_is_newton_step`, with `μ = L'.mu` the value the pass recorded (`calc_mu` of the old iterate),
+`ν = Σ degree`, `Cκ := rhs.κ + σμ − τκ` (`= m·Δτᵃ·Δκᵃ` by `combined_step_rhs`), if the combined step
+satisfies the aggregated linearised complementarity `s·Δz + z·Δs = −(s·z + C − νσμ)` on the cone
+rows (`C = m·Δsᵃ·Δzᵃ`; proved for the nonnegative cone in `mu_update_nn_array` and for the
+second-order cone in `soc_combined_step_aggregated`, there on C13's core functions), then `calc_mu`
+of the new iterate is
+
+  `μ⁺ = (1 − α(1−σ)) μ − α (C + Cκ)/(ν+1) + α² (Δs·Δz + ΔτΔκ)/(ν+1)`;
+
+the `κ` row `κΔτ + τΔκ = −rhs.κ` is derived from the model (no hypothesis), and
+`newton_step_orthogonality` applied to `pass_is_newton_step` gives
+`Δs·Δz + ΔτΔκ = dᵀPd − (1−σ)(Δx·rx + Δz·rz + Δτ·rτ)`.
+
+Full statement (not proved here): the same without `hagg`, for every list of zero / nonnegative /
+second-order cones with `s = 0` on the zero-cone rows and an interior iterate, `C` the sum of
+`m·Δsᵃ·Δzᵃ` over the nonnegative and second-order rows — it needs the Nesterov–Todd identities
+`Hs z = s`, `z·Δs_from_Δz_offset(d) = ⟨e, d⟩` of C13 on the composite arrays of `Solver/Cones.lean`. -/
+theorem pass_mu_update_partial {st : Settings ℝ} {L L' : LoopSt ℝ} {n m : ℕ} (hS : PassShape L.S n m)
+    (hPt : L.S.data.P.isTriu = true) (hp : pass st L = .ok (true, L'))
+    (hτ : L.S.variables.τ ≠ 0)
+    (h1x : KktSystem.symMat L.S.data.P n *ᵥ toFn L'.S.kktsystem.x1 n
+        + (denseA L.S.data.A m n)ᵀ *ᵥ toFn L'.S.kktsystem.z1 m = toFn L'.S.stepRhs.x n)
+    (h1z : denseA L.S.data.A m n *ᵥ toFn L'.S.kktsystem.x1 n
+        - hsMat L'.S.cones m *ᵥ toFn L'.S.kktsystem.z1 m
+        = toFn L'.S.kktsystem.workConic m - toFn L'.S.stepRhs.z m)
+    (h2x : KktSystem.symMat L.S.data.P n *ᵥ toFn L'.S.kktsystem.x2 n
+        + (denseA L.S.data.A m n)ᵀ *ᵥ toFn L'.S.kktsystem.z2 m = -toFn L.S.data.q n)
+    (h2z : denseA L.S.data.A m n *ᵥ toFn L'.S.kktsystem.x2 n
+        - hsMat L'.S.cones m *ᵥ toFn L'.S.kktsystem.z2 m = toFn L.S.data.b m)
+    (hden : KktSystem.tauDen L.S.variables.κ L.S.variables.τ
+        (toFn L.S.data.q n ⬝ᵥ toFn L'.S.kktsystem.x2 n) (toFn L.S.data.b m ⬝ᵥ toFn L'.S.kktsystem.z2 m)
+        (((-1 : ℝ) • toFn L'.S.kktsystem.x2 n + (1 : ℝ) • ((1 / L.S.variables.τ) • toFn L.S.variables.x n)) ⬝ᵥ
+          KktSystem.symMat L.S.data.P n *ᵥ ((-1 : ℝ) • toFn L'.S.kktsystem.x2 n
+            + (1 : ℝ) • ((1 / L.S.variables.τ) • toFn L.S.variables.x n)))
+        (toFn L'.S.kktsystem.x2 n ⬝ᵥ KktSystem.symMat L.S.data.P n *ᵥ toFn L'.S.kktsystem.x2 n) ≠ 0)
+    (C : ℝ)
+    (hagg : toFn L.S.variables.s m ⬝ᵥ toFn L'.S.stepLhs.z m + toFn L.S.variables.z m ⬝ᵥ toFn L'.S.stepLhs.s m
+      = -(toFn L.S.variables.s m ⬝ᵥ toFn L.S.variables.z m + C
+          - (degreeAll L.S.cones : ℝ) * (L'.sigma * L'.mu))) :
+    L'.mu = (toFn L.S.variables.s m ⬝ᵥ toFn L.S.variables.z m + L.S.variables.τ * L.S.variables.κ)
+        / ((degreeAll L.S.cones : ℝ) + 1)
+    ∧ L.S.variables.κ * L'.S.stepLhs.τ + L.S.variables.τ * L'.S.stepLhs.κ = -L'.S.stepRhs.κ
+    ∧ (toFn L'.S.variables.s m ⬝ᵥ toFn L'.S.variables.z m + L'.S.variables.τ * L'.S.variables.κ)
+        / ((degreeAll L.S.cones : ℝ) + 1)
+      = (1 - L'.alpha * (1 - L'.sigma)) * L'.mu
+        - L'.alpha * (C + (L'.S.stepRhs.κ + L'.sigma * L'.mu - L.S.variables.τ * L.S.variables.κ))
+            / ((degreeAll L.S.cones : ℝ) + 1)
+        + L'.alpha ^ 2 * (toFn L'.S.stepLhs.s m ⬝ᵥ toFn L'.S.stepLhs.z m + L'.S.stepLhs.τ * L'.S.stepLhs.κ)
+            / ((degreeAll L.S.cones : ℝ) + 1) := by
+  obtain ⟨hN, _, es, ez, eτ, eκ⟩ := pass_is_newton_step hS hPt hp hτ h1x h1z h2x h2z hden
+  obtain ⟨res, ys, an⟩ := pass_step_anatomy hS hp
+  have hμ : L'.mu = calcMu (toFn L.S.variables.s m ⬝ᵥ toFn L.S.variables.z m) L.S.variables.τ
+      L.S.variables.κ (degreeAll L.S.cones) := by
+    rw [an.mu]
+    unfold calcMu
+    rw [LawfulFloatLike.ofNat_eq]
+    push_cast
+    rfl
+  have hκ := hN.eq_κ
+  dsimp only at hκ
+  refine ⟨an.mu, hκ, ?_⟩
+  have h := mu_update_of_sum (degreeAll L.S.cones) (toFn L.S.variables.s m) (toFn L.S.variables.z m)
+    (toFn L'.S.stepLhs.s m) (toFn L'.S.stepLhs.z m) L.S.variables.τ L.S.variables.κ L'.S.stepLhs.τ
+    L'.S.stepLhs.κ L'.sigma 1 L'.alpha C
+    (L'.S.stepRhs.κ + L'.sigma * L'.mu - L.S.variables.τ * L.S.variables.κ)
+    (by rw [← hμ, one_mul]; exact hagg)
+    (by rw [← hμ, hκ]; ring)
+  rw [← hμ] at h
+  rw [es, ez, eτ, eκ]
+  have hc : calcMu ((toFn L.S.variables.s m + L'.alpha • toFn L'.S.stepLhs.s m) ⬝ᵥ
+        (toFn L.S.variables.z m + L'.alpha • toFn L'.S.stepLhs.z m))
+      (L.S.variables.τ + L'.alpha * L'.S.stepLhs.τ) (L.S.variables.κ + L'.alpha * L'.S.stepLhs.κ)
+      (degreeAll L.S.cones)
+      = ((toFn L.S.variables.s m + L'.alpha • toFn L'.S.stepLhs.s m) ⬝ᵥ
+          (toFn L.S.variables.z m + L'.alpha • toFn L'.S.stepLhs.z m)
+        + (L.S.variables.τ + L'.alpha * L'.S.stepLhs.τ) * (L.S.variables.κ + L'.alpha * L'.S.stepLhs.κ))
+        / ((degreeAll L.S.cones : ℝ) + 1) := by
+    unfold calcMu
+    rw [LawfulFloatLike.ofNat_eq]
+    push_cast
+    rfl
+  rw [← hc, h]
+  ring
+
+section intex
+attribute [local instance] Solver.Example.intFloatLike
+
+/-- non-vacuity of `pass_is_newton_step` / `pass_residual_contraction`, part (a): the whole-solver
+model does take accepted passes — on the kernel-evaluable instance of `StepInitPointExample.lean`
+(scalar `Int`: minimise `3x` s.t. `x + s = 4`, `s ≥ 0`) the first pass after `default_start()` returns
+`(true, _)` -/
+example : ∃ L L' : LoopSt Int, pass (Solver.Example.st 3) L = .ok (true, L') :=
+  Solver.InitExample.pass_exists
+
+end intex
+
+/-- non-vacuity, part (b): the shape and exactness hypotheses are satisfiable over ℝ: the `1 × 1`
+encoding `(2)` is canonical and upper triangular, and with `P = A = (2)`, `Hs = (1)`, `q = (4)`,
+`b = (2)` the pair `x₂ = 0`, `z₂ = −2` solves `[P Aᵀ; A −Hs][x₂; z₂] = [−q; b]` -/
+example : C16.Canonical Solver.rsExM ∧ Solver.rsExM.isTriu = true
+    ∧ KktSystem.symMat Solver.rsExM 1 *ᵥ toFn (#[0] : Array ℝ) 1
+        + (denseA Solver.rsExM 1 1)ᵀ *ᵥ toFn (#[-2] : Array ℝ) 1 = -toFn (#[4] : Array ℝ) 1
+    ∧ denseA Solver.rsExM 1 1 *ᵥ toFn (#[0] : Array ℝ) 1
+        - (1 : Matrix (Fin 1) (Fin 1) ℝ) *ᵥ toFn (#[-2] : Array ℝ) 1 = toFn (#[2] : Array ℝ) 1 := by
+  refine ⟨Solver.rsExM_canonical, by rfl, ?_, ?_⟩
+  · funext i
+    have : i = 0 := Subsingleton.elim _ _
+    subst this
+    simp [Matrix.mulVec, dotProduct, toFn, denseA, KktSystem.symMat, Solver.rsExM, Csc.toDense, Csc.col]
+    try norm_num
+  · funext i
+    have : i = 0 := Subsingleton.elim _ _
+    subst this
+    simp [Matrix.mulVec, dotProduct, toFn, denseA, Solver.rsExM, Csc.toDense, Csc.col]
+    try norm_num
+
 end pass
+
+/-! ## Round 6: the starting point (`solve_initial_point`, `default_start`)
+
+`KktSys.solveInitialPoint` / `SolverSt.defaultStart` are the whole-solver model's functions (tied
+bit-for-bit to the implementation by the first record of every `solve.full` trajectory). -/
+section start
+open Clarabel.Solver
+
+/-- [S] (every scalar type, `Float` included) **what `solve_initial_point` does on a programme
+without quadratic term** (`data.P.nnz() == 0`): `x, s, z` are zero-filled; the first reduced solve
+gets the right-hand side `[0; b]` and, on success, writes `variables.x` and `variables.s` (its `z`
+part, then NEGATED); if it reports failure the function returns `false` with the zero fill
+(`s = −0`); the second solve gets `[−q; 0]`, only its `z` part is used, and its flag is
+returned.  `τ, κ` are not touched. -/
+theorem solve_initial_point_calls_lp {α : Type} [Add α] [Sub α] [Mul α] [Div α] [Neg α] [OfNat α 0]
+    [OfNat α 1] [LT α] [DecidableLT α] [LE α] [DecidableLE α] [BEq α] [FloatLike α]
+    {S : KktSys α} {vars : Residuals.Vars α} {data : ProblemData α} {st : LinSettings α} {ok : Bool}
+    {v' : Residuals.Vars α} {S' : KktSys α} (hP : (data.P.nnz == 0) = true)
+    (h : S.solveInitialPoint vars data st = .ok (ok, v', S')) :
+    ∃ K0 ok1 lx1 lz1 K1,
+      S.workz.size = data.b.size ∧
+      S.kktsolver.setrhs (S.workx.map (fun _ => (0 : α))) data.b = .ok K0 ∧
+      K0.solve st = .ok (ok1, lx1, lz1, K1) ∧
+      ((ok1 = false ∧ ok = false ∧
+          v' = { zeroFilled vars with s := Vec.negate (zeroFilled vars).s }) ∨
+       (ok1 = true ∧ vars.x.size = lx1.size ∧ vars.s.size = lz1.size ∧
+        ∃ K2 ok2 lx2 lz2 K3,
+          K1.setrhs (Vec.scalaropFrom (S.workx.map (fun _ => (0 : α))) (fun q => -q) data.q)
+              (data.b.map (fun _ => (0 : α))) = .ok K2 ∧
+          K2.solve st = .ok (ok2, lx2, lz2, K3) ∧ ok = ok2 ∧
+          ((ok2 = true ∧ vars.z.size = lz2.size ∧
+              v' = { vars with x := lx1, s := Vec.negate lz1, z := lz2 }) ∨
+           (ok2 = false ∧ v' = { zeroFilled vars with x := lx1, s := Vec.negate lz1 })))) :=
+  solveInitialPoint_lp_inv hP h
+
+/-- [S] **what `solve_initial_point` does on a programme with quadratic term**: one reduced solve
+with the right-hand side `[−q; b]`; on success `variables.x`, `variables.z` are its parts and
+`variables.s = −variables.z`; on failure the zero fill (and its negation) stays and `false` is
+returned. -/
+theorem solve_initial_point_calls_qp {α : Type} [Add α] [Sub α] [Mul α] [Div α] [Neg α] [OfNat α 0]
+    [OfNat α 1] [LT α] [DecidableLT α] [LE α] [DecidableLE α] [BEq α] [FloatLike α]
+    {S : KktSys α} {vars : Residuals.Vars α} {data : ProblemData α} {st : LinSettings α} {ok : Bool}
+    {v' : Residuals.Vars α} {S' : KktSys α} (hP : (data.P.nnz == 0) = false)
+    (h : S.solveInitialPoint vars data st = .ok (ok, v', S')) :
+    ∃ K0 lx lz K1,
+      S.workx.size = data.q.size ∧ S.workz.size = data.b.size ∧
+      S.kktsolver.setrhs (Vec.negate data.q) data.b = .ok K0 ∧
+      K0.solve st = .ok (ok, lx, lz, K1) ∧
+      ((ok = true ∧ vars.x.size = lx.size ∧ vars.z.size = lz.size ∧ vars.s.size = lz.size ∧
+          v' = { vars with x := lx, z := lz, s := Vec.negate lz }) ∨
+       (ok = false ∧ v' = { zeroFilled vars with s := Vec.negate (zeroFilled vars).z })) :=
+  solveInitialPoint_qp_inv hP h
+
+/-- [S] **`default_start()` never looks at a success flag** (symmetric cones): whatever
+`kktsystem.update` and `solve_initial_point` report, what `solve_initial_point` left in the
+variables goes through `symmetric_initialization`: `x` kept, `s` and `z` shifted into the cone,
+`τ = κ = 1`.  A failed factorisation / solve therefore does not end the solve with
+`NumericalError` here; it starts the iteration from the shifted zero fill (`x = 0`). -/
+theorem default_start_ignores_flags {α : Type} [Add α] [Sub α] [Mul α] [Div α] [Neg α] [OfNat α 0]
+    [OfNat α 1] [OfNat α 2] [OfNat α 100] [OfNat α 1000] [LT α] [DecidableLT α] [LE α] [DecidableLE α]
+    [BEq α] [FloatLike α] {S S0 : SolverSt α} {st : Settings α} (h : S.defaultStart st = .ok S0) :
+    ∃ ok1 kk1 ok2 v kk2,
+      S.kktsystem.update S.data (setIdentityScaling S.cones) st.lin = .ok (ok1, kk1) ∧
+      kk1.solveInitialPoint S.variables S.data st.lin = .ok (ok2, v, kk2) ∧
+      S0.cones = setIdentityScaling S.cones ∧ S0.kktsystem = kk2 ∧ S0.data = S.data ∧
+      S0.variables.x = v.x ∧ S0.variables.τ = 1 ∧ S0.variables.κ = 1 ∧
+      Composite.shiftToConeInterior (S0.cones.map ConeSt.compSpec) v.s true = .ok S0.variables.s ∧
+      Composite.shiftToConeInterior (S0.cones.map ConeSt.compSpec) v.z false = .ok S0.variables.z := by
+  obtain ⟨ok1, kk1, ok2, v, kk2, hu, hi, hsy, hc, hk, hd⟩ := defaultStart_inv h
+  obtain ⟨ex, eτ, eκ, hs, hz⟩ := symmetricInitialization_inv hsy
+  exact ⟨ok1, kk1, ok2, v, kk2, hu, hi, hc, hk, hd, ex, eτ, eκ, by rw [hc]; exact hs, by rw [hc]; exact hz⟩
+
+section intex
+attribute [local instance] Solver.Example.intFloatLike
+
+/-- non-vacuity of the three structural theorems: on the kernel-evaluable instance of
+`StepInitPointExample.lean` (scalar `Int`; minimise `3x` s.t. `x + s = 4`, `s ≥ 0`) the LP branch
+returns `true` with `x = 4`, `s = 0`, `z = −3` — the least-squares solutions: `Aᵀs = 0`,
+`Ax + s = b`, `Aᵀz + q = 0` — and `default_start()` returns -/
+example : (∃ (S : KktSys Int) (vars : Residuals.Vars Int) (data : ProblemData Int)
+      (v' : Residuals.Vars Int) (S' : KktSys Int), (data.P.nnz == 0) = true
+        ∧ S.solveInitialPoint vars data (Solver.Example.st 3).lin = .ok (true, v', S')
+        ∧ v'.x = #[4] ∧ v'.s = #[0] ∧ v'.z = #[-3])
+    ∧ (∃ (S S0 : SolverSt Int), S.defaultStart (Solver.Example.st 3) = .ok S0 ∧ S0.variables.τ = 1) :=
+  ⟨Solver.InitExample.ip_exists, Solver.InitExample.ds_exists⟩
+
+end intex
+
+section exact
+variable {α : Type} [Field α] [LinearOrder α] [IsStrictOrderedRing α] [FloatLike α] {n m : ℕ}
+
+/-- [F] **The starting point of a programme without quadratic term solves two least-squares
+problems.**  `ReducedExact P A D rx rz lx lz` says the reduced solve with right-hand side `(rx, rz)`
+returned `(lx, lz)` with `P·lx + Aᵀ·lz = rx`, `A·lx − D·lz = rz` — exactness of the linear solver for
+the matrix `[P Aᵀ; A −D]` (the hypothesis style of the `_array` theorems).  With `D = diag d`, `d ≥ 0`
+(after `set_identity_scaling`: `d = 0` on zero-cone rows, `1` elsewhere — `identity_scaling_block`),
+if both solves of the LP branch are exact and `solve_initial_point` returns `true`, then for the
+returned `x, s, z` (`τ, κ` untouched):
+
+* `Aᵀs = 0`, `Ax + Ds = b`, and `(x, s)` minimises `sᵀDs` subject to `Ax + Ds = b` — for `D = I`, `x`
+  minimises `‖b − Ax‖²` and `s` is the residual; a row with `dᵢ = 0` is an equality row;
+* `Aᵀz + q = 0`, `Dz` lies in the range of `A`, and `z` minimises `zᵀDz` subject to `Aᵀz + q = 0`. -/
+theorem solve_initial_point_lp (A : Matrix (Fin m) (Fin n) α) (d : Fin m → α) (hd : ∀ i, 0 ≤ d i)
+    {S : KktSys α} {vars : Residuals.Vars α} {data : ProblemData α} {st : LinSettings α}
+    {v' : Residuals.Vars α} {S' : KktSys α} (hP : (data.P.nnz == 0) = true) (hwx : S.workx.size = n)
+    (hq : data.q.size = n) (hb : data.b.size = m)
+    (hex1 : ∀ K0 lx lz K1, S.kktsolver.setrhs (S.workx.map (fun _ => (0 : α))) data.b = .ok K0 →
+      K0.solve st = .ok (true, lx, lz, K1) →
+      ReducedExact (0 : Matrix (Fin n) (Fin n) α) A (Matrix.diagonal d)
+        (S.workx.map (fun _ => (0 : α))) data.b lx lz)
+    (hex2 : ∀ K0 lx lz K1 K2 lx2 lz2 K3,
+      S.kktsolver.setrhs (S.workx.map (fun _ => (0 : α))) data.b = .ok K0 →
+      K0.solve st = .ok (true, lx, lz, K1) →
+      K1.setrhs (Vec.scalaropFrom (S.workx.map (fun _ => (0 : α))) (fun q => -q) data.q)
+        (data.b.map (fun _ => (0 : α))) = .ok K2 →
+      K2.solve st = .ok (true, lx2, lz2, K3) →
+      ReducedExact (0 : Matrix (Fin n) (Fin n) α) A (Matrix.diagonal d)
+        (Vec.scalaropFrom (S.workx.map (fun _ => (0 : α))) (fun q => -q) data.q)
+        (data.b.map (fun _ => (0 : α))) lx2 lz2)
+    (h : S.solveInitialPoint vars data st = .ok (true, v', S')) :
+    v'.x.size = n ∧ v'.s.size = m ∧ v'.z.size = m ∧ v'.τ = vars.τ ∧ v'.κ = vars.κ
+    ∧ Aᵀ *ᵥ toFn v'.s m = 0
+    ∧ A *ᵥ toFn v'.x n + Matrix.diagonal d *ᵥ toFn v'.s m = toFn data.b m
+    ∧ Aᵀ *ᵥ toFn v'.z m + toFn data.q n = 0
+    ∧ (∃ xw : Fin n → α, A *ᵥ xw = Matrix.diagonal d *ᵥ toFn v'.z m)
+    ∧ (∀ (x' : Fin n → α) (s' : Fin m → α), A *ᵥ x' + Matrix.diagonal d *ᵥ s' = toFn data.b m →
+        toFn v'.s m ⬝ᵥ Matrix.diagonal d *ᵥ toFn v'.s m ≤ s' ⬝ᵥ Matrix.diagonal d *ᵥ s')
+    ∧ (∀ z' : Fin m → α, Aᵀ *ᵥ z' + toFn data.q n = 0 →
+        toFn v'.z m ⬝ᵥ Matrix.diagonal d *ᵥ toFn v'.z m ≤ z' ⬝ᵥ Matrix.diagonal d *ᵥ z') :=
+  solveInitialPoint_lp_exact A d hd hP hwx hq hb hex1 hex2 h
+
+/-- [F] **The starting point of a programme with quadratic term**: if the single reduced solve is
+exact for `[P Aᵀ; A −D]` and `solve_initial_point` returns `true`, then `Px + Aᵀz = −q`,
+`Ax − Dz = b`, `s = −z` (`τ, κ` untouched); and if `P` is symmetric positive semidefinite and
+`D = diag d`, `d ≥ 0`, `(x, s)` minimises `xᵀPx + 2qᵀx + sᵀDs` subject to `Ax + Ds = b`. -/
+theorem solve_initial_point_qp (P : Matrix (Fin n) (Fin n) α) (A : Matrix (Fin m) (Fin n) α)
+    (d : Fin m → α)
+    {S : KktSys α} {vars : Residuals.Vars α} {data : ProblemData α} {st : LinSettings α}
+    {v' : Residuals.Vars α} {S' : KktSys α} (hP : (data.P.nnz == 0) = false)
+    (hex : ∀ K0 lx lz K1, S.kktsolver.setrhs (Vec.negate data.q) data.b = .ok K0 →
+      K0.solve st = .ok (true, lx, lz, K1) →
+      ReducedExact P A (Matrix.diagonal d) (Vec.negate data.q) data.b lx lz)
+    (h : S.solveInitialPoint vars data st = .ok (true, v', S')) :
+    v'.x.size = n ∧ v'.s.size = m ∧ v'.z.size = m ∧ v'.τ = vars.τ ∧ v'.κ = vars.κ
+    ∧ P *ᵥ toFn v'.x n + Aᵀ *ᵥ toFn v'.z m = -toFn data.q n
+    ∧ A *ᵥ toFn v'.x n - Matrix.diagonal d *ᵥ toFn v'.z m = toFn data.b m
+    ∧ toFn v'.s m = -toFn v'.z m
+    ∧ (Pᵀ = P → (∀ v : Fin n → α, 0 ≤ v ⬝ᵥ P *ᵥ v) → (∀ i, 0 ≤ d i) →
+        ∀ (x' : Fin n → α) (s' : Fin m → α), A *ᵥ x' + Matrix.diagonal d *ᵥ s' = toFn data.b m →
+          toFn v'.x n ⬝ᵥ P *ᵥ toFn v'.x n + 2 * (toFn data.q n ⬝ᵥ toFn v'.x n)
+              + toFn v'.s m ⬝ᵥ Matrix.diagonal d *ᵥ toFn v'.s m
+            ≤ x' ⬝ᵥ P *ᵥ x' + 2 * (toFn data.q n ⬝ᵥ x') + s' ⬝ᵥ Matrix.diagonal d *ᵥ s') :=
+  solveInitialPoint_qp_exact P A d hP hex h
+
+end exact
+
+/-- non-vacuity of `solve_initial_point_lp` / `_qp` (the exactness hypothesis is satisfiable, with
+the numbers of the `Int` run above read in ℚ): for `A = (1)`, `D = (1)`, right-hand side `[0; 4]` the
+pair `lx = (4)`, `lz = (0)` is an exact reduced solve, and for `[−3; 0]` the pair `(−3), (−3)` -/
+example : ReducedExact (0 : Matrix (Fin 1) (Fin 1) ℚ) (1 : Matrix (Fin 1) (Fin 1) ℚ)
+      (Matrix.diagonal fun _ => 1) #[0] #[4] #[4] #[0]
+    ∧ ReducedExact (0 : Matrix (Fin 1) (Fin 1) ℚ) (1 : Matrix (Fin 1) (Fin 1) ℚ)
+      (Matrix.diagonal fun _ => 1) #[-3] #[0] #[-3] #[-3] := by
+  refine ⟨⟨rfl, rfl, ?_, ?_⟩, ⟨rfl, rfl, ?_, ?_⟩⟩ <;>
+  · funext i
+    have : i = 0 := Subsingleton.elim _ _
+    subst this
+    simp [toFn, Matrix.mulVec, dotProduct]
+
+/-- [R] **the `Hs` block after `set_identity_scaling` is `D = diag d`, `d ∈ {0, 1}`**: the matrix of
+the model's `mul_Hs` for the identity-scaled cones (zero / nonnegative / second-order) is diagonal
+with `0` on the rows of zero cones and `1` elsewhere — the `D` of `solve_initial_point_lp` / `_qp` for
+the code's initial factorisation (the static regularisation of the factorisation is part of the
+linear solver, i.e. of the exactness hypothesis). -/
+theorem identity_scaling_block {cones : List (ConeSt ℝ)} {m : ℕ} (hc : ConesFull cones)
+    (hm : numelAll cones = m) :
+    hsMat (setIdentityScaling cones) m = Matrix.diagonal (idDiagFn cones m)
+    ∧ (∀ i, 0 ≤ idDiagFn cones m i)
+    ∧ ∀ (y x : Array ℝ), y.size = m → x.size = m →
+        ∃ r, mulHs (setIdentityScaling cones) y x = .ok r ∧ r.size = m
+          ∧ toFn r m = Matrix.diagonal (idDiagFn cones m) *ᵥ toFn x m := by
+  have hI := hsMat_identity hc hm
+  refine ⟨hI, idDiagFn_nonneg cones m, fun y x hy hx => ?_⟩
+  have hc' : ConesFull (setIdentityScaling cones) := (setIdentityScaling_full hc).1
+  have hm' : numelAll (setIdentityScaling cones) = m := by
+    rw [(setIdentityScaling_full hc).2.2.2]; exact hm
+  obtain ⟨r, hr, hs, hv⟩ := mulHs_hsMat hc' hm' y x hy hx
+  exact ⟨r, hr, hs, by rw [hv, hI]⟩
+
+/-- non-vacuity of `identity_scaling_block`: a zero cone of one row and a nonnegative cone of one
+row are well-formed cone objects covering two rows -/
+example : ConesFull [ConeSt.zero 1, ConeSt.nonneg (⟨#[2], #[1]⟩ : Nonneg.Cone ℝ)]
+    ∧ numelAll [ConeSt.zero 1, ConeSt.nonneg (⟨#[2], #[1]⟩ : Nonneg.Cone ℝ)] = 2 := by
+  refine ⟨?_, rfl⟩
+  intro c hc
+  simp only [List.mem_cons, List.not_mem_nil, or_false] at hc
+  rcases hc with rfl | rfl
+  · trivial
+  · rfl
+
+/-- [R] **The starting point of a conic LP** (`P` without stored entry), on exact reduced solves:
+`default_start()` returns `τ = κ = 1`, the `x` of the primal least-squares problem, and `(s, z)` =
+the least-squares `s` and `z` (below: the arrays `s`, `z`) shifted into the cone by
+`_shift_to_cone_interior` — strictly inside it (C07's `symmetric_init_interior`, by import).  `kk1`
+is the KKT system after `kktsystem.update` with the identity scaling; for it `hkk` gives the two
+exactness hypotheses of `solve_initial_point_lp` and that the solves report success. -/
+theorem default_start_lp {n m : ℕ} (A : Matrix (Fin m) (Fin n) ℝ) (d : Fin m → ℝ)
+    (hd : ∀ i, 0 ≤ d i) {S S0 : SolverSt ℝ} {st : Settings ℝ}
+    (hP : (S.data.P.nnz == 0) = true) (hq : S.data.q.size = n) (hb : S.data.b.size = m)
+    (hwx0 : S.kktsystem.workx.size = n) (hc : ConesOk S.cones) (hnum : numelAll S.cones = m)
+    (hkk : ∀ ok1 kk1, S.kktsystem.update S.data (setIdentityScaling S.cones) st.lin = .ok (ok1, kk1) →
+      (∀ K0 lx lz K1, kk1.kktsolver.setrhs (kk1.workx.map (fun _ => (0 : ℝ))) S.data.b = .ok K0 →
+          K0.solve st.lin = .ok (true, lx, lz, K1) →
+          ReducedExact (0 : Matrix (Fin n) (Fin n) ℝ) A (Matrix.diagonal d)
+            (kk1.workx.map (fun _ => (0 : ℝ))) S.data.b lx lz)
+      ∧ (∀ K0 lx lz K1 K2 lx2 lz2 K3,
+          kk1.kktsolver.setrhs (kk1.workx.map (fun _ => (0 : ℝ))) S.data.b = .ok K0 →
+          K0.solve st.lin = .ok (true, lx, lz, K1) →
+          K1.setrhs (Vec.scalaropFrom (kk1.workx.map (fun _ => (0 : ℝ))) (fun q => -q) S.data.q)
+            (S.data.b.map (fun _ => (0 : ℝ))) = .ok K2 →
+          K2.solve st.lin = .ok (true, lx2, lz2, K3) →
+          ReducedExact (0 : Matrix (Fin n) (Fin n) ℝ) A (Matrix.diagonal d)
+            (Vec.scalaropFrom (kk1.workx.map (fun _ => (0 : ℝ))) (fun q => -q) S.data.q)
+            (S.data.b.map (fun _ => (0 : ℝ))) lx2 lz2)
+      ∧ (∀ ok2 v kk2, kk1.solveInitialPoint S.variables S.data st.lin = .ok (ok2, v, kk2) →
+          ok2 = true))
+    (h : S.defaultStart st = .ok S0) :
+    ∃ s z : Array ℝ, s.size = m ∧ z.size = m ∧ S0.variables.x.size = n
+      ∧ S0.variables.τ = 1 ∧ S0.variables.κ = 1
+      ∧ Aᵀ *ᵥ toFn s m = 0
+      ∧ A *ᵥ toFn S0.variables.x n + Matrix.diagonal d *ᵥ toFn s m = toFn S.data.b m
+      ∧ Aᵀ *ᵥ toFn z m + toFn S.data.q n = 0
+      ∧ (∃ xw : Fin n → ℝ, A *ᵥ xw = Matrix.diagonal d *ᵥ toFn z m)
+      ∧ (∀ (x' : Fin n → ℝ) (s' : Fin m → ℝ), A *ᵥ x' + Matrix.diagonal d *ᵥ s' = toFn S.data.b m →
+          toFn s m ⬝ᵥ Matrix.diagonal d *ᵥ toFn s m ≤ s' ⬝ᵥ Matrix.diagonal d *ᵥ s')
+      ∧ (∀ z' : Fin m → ℝ, Aᵀ *ᵥ z' + toFn S.data.q n = 0 →
+          toFn z m ⬝ᵥ Matrix.diagonal d *ᵥ toFn z m ≤ z' ⬝ᵥ Matrix.diagonal d *ᵥ z')
+      ∧ Composite.shiftToConeInterior (S0.cones.map ConeSt.compSpec) s true = .ok S0.variables.s
+      ∧ Composite.shiftToConeInterior (S0.cones.map ConeSt.compSpec) z false = .ok S0.variables.z
+      ∧ Interior (S0.cones.map ConeSt.compSpec) S0.variables :=
+  defaultStart_lp_exact A d hd hP hq hb hwx0 hc hnum hkk h
+
+end start
+
+/-! ## Round 6: the PSD combined step from the LAPACK contracts -/
+section psd6
+open Clarabel.PsdTri
+
+/-- [R] **PSD: the combined step satisfies the linearised complementarity equation, from the
+LAPACK contracts alone** (`psd_combined_step_equation` ∘ C13's `psd_assemble_nt` / `psd_assemble_spec`).
+Hypotheses: sizes, the contracts of the two Cholesky factorisations `S = L₁L₁ᵀ`, `Z = L₂L₂ᵀ` and of
+the SVD `L₂ᵀL₁ = U·diag(σ)·Vt`, `UᵀU = Vt·Vtᵀ = I`, and `σ > 0` (interior point: `L₂ᵀL₁` is
+nonsingular).  Then `assembleScaling` (the tail of `update_scaling`) returns a cone `K` with
+`λ = σ` which is the Nesterov–Todd scaling of `(s, z)` (`Wz = λ = W⁻ᵀs`, `mul_Hs z = s`), and on it —
+with no further hypothesis (`R·R⁻¹ = I` and `λᵢ + λⱼ ≠ 0` are derived) — every call of the combined
+step succeeds and, for every `Δz`,
+
+  `λ ∘ (WΔz + W⁻ᵀΔs) = −d`,   `mat(d) = (W⁻ᵀΔsᵃ)∘(WΔzᵃ) − σμ·I + Λ²`,
+
+`Δs = −1·Δs_from_Δz_offset(d) + (−1)·mul_Hs(Δz)` as `DefaultKKTSystem::solve` computes it. -/
+theorem psd_combined_step_from_contracts (n : Nat) (L1 L2 U Vt sig s z dza dsa dz y y' : Array ℝ)
+    (σμ : ℝ)
+    (h1 : L1.size = n * n) (h2 : L2.size = n * n) (hU : U.size = n * n) (hV : Vt.size = n * n)
+    (hsg : sig.size = n) (hs : s.size = PsdIndex.triangularNumber n)
+    (hz : z.size = PsdIndex.triangularNumber n)
+    (hza : dza.size = PsdIndex.triangularNumber n) (hsa : dsa.size = PsdIndex.triangularNumber n)
+    (hdz : dz.size = PsdIndex.triangularNumber n) (hy : y.size = PsdIndex.triangularNumber n)
+    (hy' : y'.size = PsdIndex.triangularNumber n)
+    (hS : toM n (svecToMat s) = toM n (matOf n L1) * (toM n (matOf n L1))ᵀ)
+    (hZ : toM n (svecToMat z) = toM n (matOf n L2) * (toM n (matOf n L2))ᵀ)
+    (hsvd : (toM n (matOf n L2))ᵀ * toM n (matOf n L1)
+      = toM n (matOf n U) * Matrix.diagonal (fun i : Fin n => sig.getD i 0) * toM n (matOf n Vt))
+    (hUo : (toM n (matOf n U))ᵀ * toM n (matOf n U) = 1)
+    (hVo : toM n (matOf n Vt) * (toM n (matOf n Vt))ᵀ = 1)
+    (hpos : ∀ i, i < n → 0 < sig.getD i 0) :
+    ∃ K RRt, assembleScaling n L1 L2 U Vt sig = .ok (K, RRt) ∧ K.n = n ∧ K.lam = sig ∧
+      mulW K false z z 1 0 = .ok (lamVec K.n K.lam) ∧
+      mulWinv K true s s 1 0 = .ok (lamVec K.n K.lam) ∧
+      PsdTri.mulHs K z = .ok s ∧
+      ∃ sh wz ws aff h c p r,
+        PsdTri.combinedDsShift K dza dsa σμ = .ok (sh, wz, ws) ∧
+        PsdTri.affineDs K (PsdIndex.triangularNumber K.n) = .ok aff ∧
+        PsdTri.circOp K.n (lamVec K.n K.lam) (lamVec K.n K.lam) = .ok aff ∧
+        PsdTri.mulHs K dz = .ok h ∧
+        PsdTri.dsFromDzOffset K (Vec.axpby 1 sh 1 aff) = .ok c ∧
+        mulW K false y dz 1 0 = .ok p ∧
+        mulWinv K true y' (Vec.axpby (-1) c (-1) h) 1 0 = .ok r ∧
+        PsdTri.circOp K.n (lamVec K.n K.lam) (Vec.waxpby 1 p 1 r)
+          = .ok (Vec.negate (Vec.axpby 1 sh 1 aff)) ∧
+        toM K.n (svecToMat (Vec.axpby 1 sh 1 aff))
+          = (1 / 2 : ℝ) •
+              ((toM K.n (matOf K.n K.Rinv) * toM K.n (svecToMat dsa) * (toM K.n (matOf K.n K.Rinv))ᵀ)
+                * ((toM K.n (matOf K.n K.R))ᵀ * toM K.n (svecToMat dza) * toM K.n (matOf K.n K.R))
+              + ((toM K.n (matOf K.n K.R))ᵀ * toM K.n (svecToMat dza) * toM K.n (matOf K.n K.R))
+                * (toM K.n (matOf K.n K.Rinv) * toM K.n (svecToMat dsa) * (toM K.n (matOf K.n K.Rinv))ᵀ))
+            - σμ • (1 : Matrix (Fin K.n) (Fin K.n) ℝ)
+            + Matrix.diagonal (fun i : Fin K.n => K.lam.getD i 0)
+              * Matrix.diagonal (fun i : Fin K.n => K.lam.getD i 0) :=
+  psd_combined_step_contracts n L1 L2 U Vt sig s z dza dsa dz y y' σμ h1 h2 hU hV hsg hs hz hza hsa hdz
+    hy hy' hS hZ hsvd hUo hVo hpos
+
+/-- non-vacuity of `psd_combined_step_from_contracts`: `n = 1`, `s = z = (4)`, `L₁ = L₂ = (2)`,
+`U = Vt = (1)`, `σ = (4)`, directions `(1)`: all hypotheses hold, so the theorem yields the cone and
+the equation -/
+example : ∃ K RRt, assembleScaling 1 (#[2] : Array ℝ) #[2] #[1] #[1] #[4] = .ok (K, RRt) ∧ K.n = 1 := by
+  obtain ⟨K, RRt, hK, hn, _⟩ := psd_combined_step_from_contracts 1 #[2] #[2] #[1] #[1] #[4] #[4] #[4]
+    #[1] #[1] #[1] #[1] #[1] (1 / 2) rfl rfl rfl rfl rfl rfl rfl rfl rfl rfl rfl rfl
+    (by ext i j; fin_cases i; fin_cases j
+        simp [Matrix.mul_apply, toM, matOf, svecToMat, PsdIndex.triangularNumber]; norm_num)
+    (by ext i j; fin_cases i; fin_cases j
+        simp [Matrix.mul_apply, toM, matOf, svecToMat, PsdIndex.triangularNumber]; norm_num)
+    (by ext i j; fin_cases i; fin_cases j
+        simp [Matrix.mul_apply, toM, matOf]; norm_num)
+    (by ext i j; fin_cases i; fin_cases j
+        simp [Matrix.mul_apply, toM, matOf])
+    (by ext i j; fin_cases i; fin_cases j
+        simp [Matrix.mul_apply, toM, matOf])
+    (by intro i hi
+        have : i = 0 := by omega
+        subst this; simp)
+  exact ⟨K, RRt, hK, hn⟩
+
+end psd6
 
 end Clarabel.C06
